@@ -126,9 +126,28 @@ def r15b(chk, rid='R15.b'):
     body = ast.unparse(test[0].stmt)
     chk.ob(rid, SHEET, 'CSSStyleSheet.deleteRule', 'refuses the last rule of a URI in use', 'rule.namespaceURI in useduris' in body and 'uris.count(rule.namespaceURI) == 1' in body and 'raise xml.dom.NoModificationAllowedErr' in body, body[:160], shape=True)
     chk.ob(rid, SHEET, 'CSSStyleSheet.deleteRule', 'used URIs come from _getUsedURIs', 'useduris = self._getUsedURIs()' in body, '', shape=True)
+    # _getUsedURIs evaluated on a model sheet: every style rule, at any depth of @media nesting
+    from sa.absint import Evaluator, Raised, Record
+
+    class Rules(Record):
+        def __iter__(self):
+            return iter(self.cssRules)
+
+    K = dict(STYLE_RULE=1, MEDIA_RULE=4, PAGE_RULE=6, COMMENT=1001, NAMESPACE_RULE=10)
+
+    def style(uri):
+        return Record(type=1, selectorList=Record(_getUsedUris=lambda: {uri}), **K)
+
+    def media(*rules):
+        return Rules(type=4, cssRules=list(rules), **K)
+
+    sheet = Rules(cssRules=[Record(type=10, **K), style('top'), Record(type=1001, **K), media(style('in-media'), Record(type=6, **K), media(style('in-nested-media'), media(style('depth-3')))), style('last')])
     uf = chk.repo.fn(SHEET, 'CSSStyleSheet._getUsedURIs')
-    src = ast.unparse(uf)
-    chk.ob(rid, SHEET, 'CSSStyleSheet._getUsedURIs', 'scans style rules at sheet level and inside @media', 'r1.STYLE_RULE == r1.type' in src and 'r1.MEDIA_RULE == r1.type' in src and src.count('_getUsedUris()') == 2, src[:200], shape=True)
+    got = Evaluator(uf, module=chk.repo.mod(SHEET), cls='CSSStyleSheet').run(self=sheet)
+    want = {'top', 'in-media', 'in-nested-media', 'depth-3', 'last'}
+    missing = sorted(want - set(got)) if not isinstance(got, Raised) else sorted(want)
+    chk.ob(rid, SHEET, 'CSSStyleSheet._getUsedURIs', 'the URIs of every style rule count as used: at sheet level and at any depth of @media nesting (by evaluation over a model sheet)', not missing and not isinstance(got, Raised),
+           f'not reported as used: {missing}' + (f' ({got!r})' if isinstance(got, Raised) else '') + ' - the @namespace rule of such a URI can be deleted, and keepUsedNamespaceRulesOnly drops it, although a selector still uses the prefix')
 
 
 def r15c(chk, rid='R15.c'):
